@@ -174,7 +174,6 @@ ClausesOf(b, fx) ==
            \cup ProgressOnce(o.prog.p2, o.prog.p3, TRUE, TRUE, b.X, a)
            \cup Agree(o.json.out, TRUE, o.plain.lines, TRUE, o.prog.p3, TRUE, b.X, a)
 
-CodeGen == [dryundef |-> FALSE]
 FixedGen == [dryundef |-> TRUE]
 
 VARIABLES ph, sh, run, d
@@ -183,7 +182,7 @@ NoRun == [dry |-> FALSE, ss |-> FALSE, feats |-> <<>>]
 Init == ph = "start" /\ sh = 0 /\ run = NoRun /\ d = [v |-> {}, vr |-> {}]
 Next == \/ ph = "start" /\ ph' = "shape" /\ sh' \in {x \in Shapes : ShapeOK(x)} /\ UNCHANGED <<run, d>>
         \/ ph = "shape" /\ ph' = "case" /\ sh' = sh /\ run' \in RunsOf(sh)
-           /\ d' = [v |-> ClausesOf(Build(run', CodeGen), NoFix), vr |-> ClausesOf(Build(run', FixedGen), AllFix)]
+           /\ d' = [v |-> ClausesOf(Build(run', CodeGen), CodeFix), vr |-> ClausesOf(Build(run', FixedGen), AllFix)]
 Spec == Init /\ [][Next]_vars
 
 Names(vs) == {v[1] : v \in vs}
@@ -209,7 +208,7 @@ KFNarrow == ph = "case" =>
    \* #13: a background is announced in a feature
    /\ (Fired(KF_RB) => \E k \in DOMAIN run.feats : run.feats[k].fbg > 0 \/ (run.feats[k].rule.kind = "rule" /\ run.feats[k].rule.rbg > 0))
 \* ... and the defects are real: whenever the input condition of #12 holds in a run that comes to its end, the clause fires
-KFBgReal == ph = "case" =>
+KFBgReal == (ph = "case" /\ ~CodeFix.bgfinish) =>
    (((\A c \in Names(d.v) : c # "C15.no_crash/" \o KF_ARG) /\
     \E k \in DOMAIN run.feats : LET f == run.feats[k] IN
         f.rule.kind = "rule" /\ (f.rule.rbg > 0 \/ f.fbg > 0) /\ ShownPre(f) /\ ((f.sel /\ f.rule.sel) \/ run.ss))
@@ -224,7 +223,7 @@ RunCode == Fold(LAMBDA acc, f : acc * 31 + Code(AllScens(f), 1) + f.fbg + 2 * f.
 EmitThis == RunCode % EmitMod = 0
 Emit == (ph = "case" /\ EmitThis) =>
    LET b == Build(run, CodeGen)
-       o == Outputs(b, NoFix)
+       o == Outputs(b, CodeFix)
        dead == Crashes(o) # {}
    IN PrintT(<<"CASE", ToJson([run |-> run, kinds |-> b.kinds, events |-> b.ev, st |-> b.X.st, sst |-> b.X.sst,
                                clauses |-> [c \in KnownFamilies |-> c \in Names(d.v)], dead |-> dead,
